@@ -469,6 +469,71 @@ fn run_huge(case: u64, rng: &mut Rng, ev: &mut Ev) {
     ev.nontrivial(h.fin());
 }
 
+/// Several hundred rows in the plane: tangent half-planes of a polygon around the origin (integer data), and
+/// one or two rows at the very END of the system that decide the answer (cut the polygon, make it empty, or
+/// leave it alone).
+fn run_many_rows(case: u64, rng: &mut Rng, ev: &mut Ev) {
+    let m = 260 + rng.below(400);
+    let mut mat: Vec<Vec<f64>> = Vec::with_capacity(m + 2);
+    let mut bias: Vec<f64> = Vec::with_capacity(m + 2);
+    for k in 0..m {
+        // integer normals spread over all directions; the half-plane a.x <= |a|_1 * 10 contains the box [-10,10]^2 ... roughly a disc
+        let ang = (k as f64) * std::f64::consts::TAU / (m as f64);
+        let a = ((ang.cos() * 64.0).round(), (ang.sin() * 64.0).round());
+        if a.0 == 0.0 && a.1 == 0.0 {
+            continue;
+        }
+        mat.push(vec![a.0, a.1]);
+        bias.push(((a.0 * a.0 + a.1 * a.1) as f64).sqrt().ceil() * 10.0);
+    }
+    let kind = rng.below(3);
+    match kind {
+        0 => {
+            // empty by a wide margin: x0 <= -20 contradicts the polygon (radius about 10)
+            mat.push(vec![1.0, 0.0]);
+            bias.push(-20.0);
+        }
+        1 => {
+            // a small box far from the centre of the polygon but inside it
+            mat.push(vec![-1.0, 0.0]);
+            bias.push(-5.0);
+            mat.push(vec![0.0, -1.0]);
+            bias.push(-5.0);
+        }
+        _ => {}
+    }
+    let p = Aff { mat, bias };
+    ev.evaluations += 1;
+    ev.inc("class_many_rows");
+    let desc = json!({"class": "many rows (deciding rows last)", "rows": p.mat.len(), "kind": kind, "last_rows": p.mat.iter().rev().take(2).collect::<Vec<_>>()});
+    let lp = p.to_poly();
+    let st = match lib(case, "status", || lp.status()) {
+        Ok(s) => s,
+        Err(pm) => {
+            ev.violation(case, "c10:status:panic", "", json!({"case": desc, "panic": pm}));
+            return;
+        }
+    };
+    if !handle(referee(&p.mat, &p.bias, &[0.0, 0.0], &st), case, ev, "status", &desc, &st) {
+        return;
+    }
+    match lib(case, "is_feasible", || lp.is_feasible()) {
+        Ok(f) => {
+            if f != (kind != 0) {
+                ev.violation(case, "c10:is_feasible", "", json!({"case": desc, "is_feasible": f, "problem": "is_feasible disagrees with the construction"}));
+                return;
+            }
+        }
+        Err(pm) => {
+            ev.violation(case, "c10:is_feasible:panic", "", json!({"case": desc, "panic": pm}));
+            return;
+        }
+    }
+    let mut h = Hasher::new();
+    h.s(&desc.to_string());
+    ev.nontrivial(h.fin());
+}
+
 /// badly scaled systems: rows multiplied by powers of two up to 2^21 and near-duplicate slabs, the kind of
 /// path polytope that long composition histories produce
 fn run_badly_scaled(case: u64, rng: &mut Rng, ev: &mut Ev) {
@@ -528,6 +593,9 @@ pub fn run_case(ctx: &Ctx, case: u64, ev: &mut Ev) {
     }
     if rng.chance(0.03) {
         return run_huge(case, &mut rng, ev);
+    }
+    if rng.chance(0.004) {
+        return run_many_rows(case, &mut rng, ev);
     }
     match rng.below(10) {
         0..=5 => run_generated(case, &mut rng, ev),
